@@ -346,6 +346,50 @@ def rule_x7(chk: Check):
     chk.floor("X7-cpython-sibling", 150)
 
 
+def rule_x8(chk: Check, ir, ix: Index):
+    """X8: text that only the *scanner* can reject.  A lone `}` in the literal part of an f-string is a CPython error
+    ("single '}' is not allowed"); here the literal part is whatever the middle-mode scan pattern runs over, and the
+    FSTRING_MIDDLE text goes into the tree unexamined, so the pattern (or the action) has to notice the brace."""
+    from .. import rx
+    from .c10 import add_prog_sites, fold_pattern
+    F = constfold.fold_tokenize()
+    endpats = F.need("endpats")
+    lone = r"(?:[^}]|\}\})*\}[^}](?:.|\n)*"
+    sites = [(f, n, mode, pat, defs) for f, n, mode, pat, defs in add_prog_sites(ix) if mode == "ModeMiddle"]
+    if not sites:
+        raise AnalysisError("X8: no add_prog site enters ModeMiddle")
+    # do the FSTRING_MIDDLE actions look at the text at all?
+    examined = True
+    n_actions = 0
+    for r in ir.rules.values():
+        for a in r.alts:
+            for it in a.items:
+                if isinstance(it.item, Tok) and it.item.name == "FSTRING_MIDDLE" and it.name and a.action is not None:
+                    n_actions += 1
+                    for c in ast.walk(a.action):
+                        if isinstance(c, ast.Call) and norm_stmt(c.func) == "ast.Constant":
+                            for kw in c.keywords:
+                                if kw.arg == "value" and norm_stmt(kw.value) == f"{it.name}.string":
+                                    examined = False
+    if not n_actions:
+        raise AnalysisError("X8: no action receives a FSTRING_MIDDLE token")
+    for f, n, mode, pat, defs in sites:
+        if pat is None:
+            continue
+        for p in fold_pattern(pat, defs, endpats):
+            chk.count("X8-fstring-lone-rbrace")
+            try:
+                an = rx.Analysis({"scan": p, "lone": lone}, exhaustive=False)
+                w = an.witness_intersection(["scan", "lone"])
+            except rx.Unsupported as e:
+                chk.undecided("X8-fstring-lone-rbrace", f"{f.qual}:ModeMiddle", f"{f.rel}:{n.lineno}", f"scan pattern not analysable: {e}")
+                continue
+            chk.require(w is None or examined, "X8-fstring-lone-rbrace", f"{f.qual}:ModeMiddle", f"{f.rel}:{n.lineno}",
+                        f"the literal-part scan runs over {w!r}: a closing brace that is not doubled becomes part of the FSTRING_MIDDLE "
+                        f"text, and the grammar copies that text into a Constant unexamined — `f'}}'` and `f'a}}b'` return a tree "
+                        f"(CPython: f-string: single '}}' is not allowed)")
+
+
 def run(chk: Check):
     chk.explanation = (
         "Decides the mechanisms that keep the xonsh extensions behind xonsh-only lexemes and make rejection total: (X1) every "
@@ -372,5 +416,15 @@ def run(chk: Check):
     rule_x5(chk, ir)
     rule_x6(chk, ir)
     rule_x7(chk)
+    rule_x8(chk, ir, ix)
+    # rejection mechanisms that live in the scanner and in the string actions are necessary for C02 as much as for the
+    # property they were written under: inconsistent dedent, unterminated one-line strings, bytes next to str/f-strings
+    from .c08 import rule_l2, rule_l4
+    rule_l4(chk, ix)
+    rule_l2(chk, ix)
+    from .. import typed
+    typed.run().feed(chk, {"S1-joinedstr-bytes": "X9-bytes-mixing", "E4-mixed-literal-add": "X9-bytes-mixing"})
+    chk.floor("X8-fstring-lone-rbrace", 1)
+    chk.floor("L4-block-structure", 4)
     chk.floor("X2-endmarker", 2)
     chk.floor("X4-wildcards-confined", 3)
